@@ -34,3 +34,10 @@ add("C12", CH + "; one inductive step from an arbitrary invariant-satisfying tex
 add("C13", CH + "; snapshot-before == snapshot-after as the only postcondition",
     "For every copy-returning tier and textgrid operation of the property (all modes, <=1 quick / <=2 thorough entries, arbitrary arguments incl. failing ones) receiver and argument snapshots (names, order, spans, entries) are unchanged on success and on exception; insertEntry/deleteEntry and every failing argument class of addTier/removeTier/renameTier/replaceTier leave the object exactly as before; Textgrid.save never mutates the textgrid and never opens the destination when validation or serialisation raises (io.open replaced by a recorder).",
     NOTE + "; io.open, numToStr and json.dumps stubbed in the save obligations (bytes on disk outside the claim)", "DESIGN.md 3/C13")
+
+add("C14", CH,
+    "All-paths verdict (exact reals) that dejitter moves each timestamp to a nearest reference timestamp iff it lies within maxDifference (inclusive) and leaves it untouched otherwise, keeps count/order/labels/span, raises exactly when the adjusted tier would collapse or cross, for interval and point tiers against interval and point references; alignBoundariesAcrossTiers = dejitter of every non-reference tier with the reference untouched; morph gives each selected interval its counterpart's duration preserving labels (incl. blank labels), gaps, first start and trailing gap for four filters; mismatched counts raise SafeZipException.",
+    NOTE + "; tie-breaking between equidistant reference candidates accepted either way", "DESIGN.md 3/C14")
+add("C15", CH + "; comparison-only helpers on IEEE binary64, strings over a 4-letter alphabet",
+    "All-paths verdicts that find (exact/substring over symbolic labels and queries; six fixed regexes, case-insensitive, against an independent matcher), getNonEntries (positive-length blanks tiling [0,max]), timestamps, getValuesInIntervals (start <= t <= end for samples in any order incl. boundary hits), getValuesAtPoints exact and fuzzy (a nearest sample), intervalOverlapCheck with boundary/time/percent options, invertIntervalList (complement within optional bounds, unsorted input, empty list), tier/textgrid equality (reflexive, symmetric, sensitive to name/type/label/count/span/time/tier order) and validate() for tiers with arbitrary corrupt entries/spans and textgrids with mismatching spans agree with their definitions.",
+    NOTE + "; regex semantics for the six fixed patterns are re-implemented by hand in the harness", "DESIGN.md 3/C15")
